@@ -72,13 +72,39 @@ type c02State struct {
 	rz   rec.Raster
 	orig []byte
 	img  *image.RGBA
+	// depCPU: CPU seconds of the current case spent in the pass that ends in
+	// golang.org/x/image/vector (not the library's work)
+	depCPU float64
+}
+
+// c02WorkLimit bounds the CPU time all decodes of one input of at most 64 KiB
+// may take together (recorder, logger, Encoder, Renderer over the recording
+// rasterizer, DecodeViewBox, Disassemble). The unchanged tree needs well under a
+// millisecond per KiB; the bound is some thousand times that, in CPU time of
+// this process (a loaded machine does not inflate it). It turns "work is linear
+// in input length" into something observed per case: work that grows with the
+// magnitude of an operand is reported here within seconds, long before the
+// driver's non-termination watchdog.
+const c02WorkLimit = 5.0
+
+func c02Check(c *run.Ctx, st *c02State, b []byte, family string, salt uint64) []rec.Op {
+	st.depCPU = 0
+	t0 := run.ProcessCPU()
+	ops := c02CheckBody(c, st, b, family, salt)
+	if len(b) <= 1<<16 {
+		c.Count("inputs_with_cpu_time_bound", 1)
+		if dt := run.ProcessCPU() - t0 - st.depCPU; dt > c02WorkLimit {
+			c.Violate("work-not-linear-in-input-length", map[string]interface{}{"family": family, "input": hx(st.orig), "bytes": len(b), "cpu_seconds": dt, "limit": c02WorkLimit})
+		}
+	}
+	return ops
 }
 
 func premulOK(r, g, b, a uint32) bool { return r <= a && g <= a && b <= a }
 
 // c02Check pushes one input through every entry point and asserts the
 // invariants. It returns the calls delivered to the recorder.
-func c02Check(c *run.Ctx, st *c02State, b []byte, family string, salt uint64) []rec.Op {
+func c02CheckBody(c *run.Ctx, st *c02State, b []byte, family string, salt uint64) []rec.Op {
 	c.Input(b)
 	c.Count("inputs", 1)
 	st.orig = append(st.orig[:0], b...)
@@ -296,6 +322,8 @@ func c02Check(c *run.Ctx, st *c02State, b []byte, family string, salt uint64) []
 	if st.rz.NMut > 0 && st.rz.MaxAbs <= 1e5 && salt%4 == 0 {
 		c.Count("vec_renders", 1)
 		// a panic raised inside golang.org/x/image/vector is not ivg's (DESIGN 6.5); counted, sampled
+		v0 := run.ProcessCPU()
+		defer func() { st.depCPU += run.ProcessCPU() - v0 }()
 		c.GuardDep("Decode(Renderer+vec)", "golang.org/x/image/", detail, func() {
 			if st.img == nil {
 				st.img = image.NewRGBA(image.Rect(0, 0, 72, 72))
